@@ -12,7 +12,7 @@
 (*  Write   c, b [bytes], clk [hi, lo]    (ceiling of the clock, limbs)    *)
 (*  Reply   c, b [bytes]         what the device answered ([] = end of     *)
 (*                               stream), src "script" | "device"          *)
-(*  Ret     c, out (return|runtime|raise), exc, ok, r {...}                *)
+(*  Ret     c, out (return|runtime|raise|cancelled), exc, ok, r {...}      *)
 (* A new tid resets all instances.                                         *)
 (***************************************************************************)
 EXTENDS Client, TraceKit
@@ -244,6 +244,8 @@ Step(e, s, rw, sl, ak, ls) ==
                   "ret-" \o e.out \o "-" \o Expect(s).must \o "-" \o Expect(s).why, OnRet(s), rw, sl)
          ELSE IF s.pc = "login"
          THEN Res(Cl(e.out # "return" /\ s.arg # "ok", "C03:call-ended-before-login"), "ret-before-login", OnRet(s), rw, sl)
+         ELSE IF e.out = "cancelled" /\ s.pc \in {"waitlogin", "waitcmd"}
+         THEN Res(<<>>, "ret-cancelled-" \o s.pc, OnRet(s), rw, sl)      \* the caller gave up while waiting; the device never answers that frame
          ELSE Res(<<"C03:call-ended-while-a-reply-was-pending">>, "ret-out-of-turn", OnRet(s), rw, sl)
     [] OTHER -> Res(<<"unknown-event">>, "unknown", s, rw, sl)
 
